@@ -430,7 +430,7 @@ func ProjectStore(s *state.Store, idx uint64, skipNode string) M {
 		case "services":
 			x := item.(*structs.ServiceNode)
 			if x.PeerName == "" && x.Node != skipNode {
-				svcs = append(svcs, M{"node": x.Node, "id": x.ServiceID, "name": x.ServiceName})
+				svcs = append(svcs, M{"node": x.Node, "id": x.ServiceID, "name": x.ServiceName, "mi": x.ModifyIndex})
 			}
 		case "checks":
 			x := item.(*structs.HealthCheck)
